@@ -109,7 +109,7 @@ PwNeg(r)  == [r EXCEPT !.sign = -r.sign]
 Neg(r) == IF r.aff THEN AffNeg(r) ELSE IF IsPW THEN PwNeg(r) ELSE CvxNeg(r)
 
 \* Convex.__add__ 2461: affine_out + other  (sum_axis not forwarded)
-CvxAdd(r, d) == [r EXCEPT !.oc = @ + d[1], !.ot = @ + d[2], !.sumreg = FALSE]
+CvxAdd(r, d) == [r EXCEPT !.oc = @ + d[1], !.ot = @ + d[2], !.sumreg = FALSE, !.num = r.num /\ d[2] = 0]
 \* PiecewiseConvex.__add__ 2618: every piece + other*self.sign
 \*   (a numeric piece stays a Python number until a variable is added: register num)
 PwAdd(r, d)  == [r EXCEPT !.oc = @ + d[1] * r.sign, !.ot = @ + d[2] * r.sign, !.num = r.num /\ d[2] = 0]
@@ -126,8 +126,10 @@ CvxMul(r, k) == [r EXCEPT !.sign = KSgn(k) * r.sign, !.m = Times(r.m, KAbs(k)),
 \* PiecewiseConvex.__mul__ 2646: pieces*|k|, sign*np.sign(k)
 PwMul(r, k)  == [r EXCEPT !.sign = KSgn(k) * r.sign, !.m = Times(r.m, KAbs(k)),
                           !.oc = Times(r.oc, KAbs(k)), !.ot = Times(r.ot, KAbs(k))]
-\* repaired ("zerodiv" for Convex/PerspConvex, "pwzero" for piecewise): 0 * e returns the affine 0*affine_out (0*piece)
-ZeroFixed == IF IsPW THEN "pwzero" \in Fixed ELSE "zerodiv" \in Fixed
+\* repaired ("pwzero"): a piecewise object with sign 0 is the common affine function of its pieces: __neg__ negates
+\*   the pieces, __add__ adds the operand itself, __mul__ multiplies by the signed scalar (register aff).
+\*   ("zerodiv" is repaired in the encoders, see FormStage: the object and its registers stay as they are.)
+ZeroFixed == IsPW /\ "pwzero" \in Fixed
 AffZero(r)   == [r EXCEPT !.sign = 0, !.m = 0, !.oc = 0, !.ot = 0, !.sumreg = FALSE, !.persp = FALSE, !.aff = TRUE]
 AffMul(r, k) == [r EXCEPT !.oc = Times(r.oc, k), !.ot = Times(r.ot, k)]
 Mul(r, k) == IF r.aff THEN AffMul(r, k)
@@ -210,8 +212,8 @@ EmOf(x, ov) == [m |-> x.m, oc |-> x.oc, ot |-> x.ot, ov |-> ov,
 \* a numeric piece plus a numeric operand: `piece <= 0` is a bool, which ro st() refuses (TypeError) and dro st()
 \* appends to all_constr (AttributeError in do_math);  a numeric scale breaks dro.Model.ro_to_roc
 CmpStage(x) ==
-    IF x.aff THEN "ok"
-    ELSE IF x.num /\ "pwconst" \notin Fixed THEN (IF fe = "ro" THEN "st" ELSE "math")
+    IF x.num /\ "pwconst" \notin Fixed THEN (IF fe = "ro" THEN "st" ELSE "math")
+    ELSE IF x.aff THEN "ok"
     ELSE IF cls.cs /\ fe = "dro" /\ x.persp /\ "perspcs" \notin Fixed THEN "math"
     ELSE FormStage(x)
 
@@ -241,6 +243,7 @@ ObjEval(op) ==
                ELSE IF ~Unchecked(op, "-") /\ x.sign = -1
                THEN (IF "lateobj" \in Fixed THEN "st" ELSE "math")
                ELSE IF fe = "dro" /\ IsPersp /\ "dropersp" \notin Fixed THEN "math"
+               ELSE IF fe = "dro" /\ cls.cs /\ x.persp /\ "perspcs" \notin Fixed THEN "math"   \* routed, then ro_to_roc
                ELSE FormStage(x),
      em |-> EmOf(x, ov)]
 
@@ -262,8 +265,8 @@ IdealWant(op, o) ==
 KnownLateObj(op, ev)    == "lateobj" \notin Fixed /\ ObjType(op) /\ ~IdealAccept(op) /\ ev.stage = "math"
 KnownPwNoCheck(op, o)   == Unchecked(op, o)
 KnownPwZero             == "pwzero" \notin Fixed /\ IsPW /\ reg.sign = 0
-KnownPwConst(op, o)     == "pwconst" \notin Fixed /\ (LeType(op) \/ GeType(op)) /\ ~reg.aff /\ reg.num /\ o = "c"
-KnownPerspCs(op)        == "perspcs" \notin Fixed /\ cls.cs /\ fe = "dro" /\ reg.persp /\ (LeType(op) \/ GeType(op))
+KnownPwConst(op, o)     == "pwconst" \notin Fixed /\ (LeType(op) \/ GeType(op)) /\ reg.num /\ o = "c"
+KnownPerspCs(op)        == "perspcs" \notin Fixed /\ cls.cs /\ fe = "dro" /\ reg.persp /\ ~EqType(op)
 KnownZeroDiv(op, ev)    == "zerodiv" \notin Fixed /\ ~IsPW /\ cls.div /\ ~EqType(op) /\ ev.em.m = 0 /\ ev.stage = "math"
 KnownDroPerspObj(op)    == "dropersp" \notin Fixed /\ fe = "dro" /\ IsPersp /\ ObjType(op)
 KnownSumDropped         == gh.sum      \* C06 (defect 7): sum_axis is never read, affine_scale is lost
